@@ -52,6 +52,12 @@ pub fn o_policy(p: &Program, t: &Trace) -> Vec<Finding> {
     for ev in &t.policy_events {
         let s = &ev.snap;
         let sum: i128 = s.key_costs.iter().map(|(_, c)| *c as i128).sum();
+        if sum > i64::MAX as i128 {
+            // domain bound of this check: the charged total is an i64 in the API (max_cost, cap);
+            // once the per-entry charges of simultaneously charged entries add up to more than
+            // i64::MAX the total is not representable and nothing is claimed for the rest of this run
+            break;
+        }
         if s.used as i128 != sum {
             out.push(f("policy-used-mismatch", format!("charged total {} but the per-entry charges sum to {} ({:?})", s.used, sum, s.key_costs)));
             break;
@@ -75,7 +81,9 @@ pub fn o_policy(p: &Program, t: &Trace) -> Vec<Finding> {
         } else {
             let inc: i128 = s.key_costs.iter().map(|(k, c)| pk.get(k).map(|pc| (*c as i128 - *pc as i128).max(0)).unwrap_or(0)).sum();
             slack += inc + (prev.max_cost as i128 - s.max_cost as i128).max(0);
-            if s.used as i128 > s.max_cost as i128 + slack {
+            // an empty policy charges nothing: a negative max_cost (accepted by the builder) is
+            // then trivially "exceeded" by 0 and nothing is claimed
+            if !s.key_costs.is_empty() && s.used as i128 > s.max_cost as i128 + slack {
                 out.push(f(
                     "over-budget-without-update",
                     format!("charged total {} exceeds max_cost {} by more than updates/lowered max_cost added since the last admission ({})", s.used, s.max_cost, slack),
